@@ -28,6 +28,116 @@ def join_tokens(toks):
     return out
 
 
+RECORDS = []
+_PATCHED = [False]
+
+MSG = {
+    "is not a valid Blackbird symbol": "invalidSymbol", "missing an assignment": "missingAssignment",
+    "has an incomplete value or expression": "incompleteValue", "which is not a valid": "invalidInVariable",
+    "array declaration requires a new line": "arrayNeedsNewline", "- array": "invalidInArray",
+    "is missing modes": "missingModes", "multiple modes must be separated": "modesNotSeparated",
+    "blackbird 'name' statement is missing": "missingName", "blackbird 'version' statement is missing": "missingVersion",
+}
+
+
+def node_of(ctx):
+    from blackbird.blackbirdParser import blackbirdParser as P
+    cls = {P.StartContext: "start", P.MetadatablockContext: "metadatablock", P.ExpressionvarContext: "expressionvar",
+           P.ArrayvarContext: "arrayvar", P.StatementContext: "statement"}.get(type(ctx), "other")
+
+    def has(name):
+        f = getattr(ctx, name, None)
+        if f is None:
+            return False
+        try:
+            return f() is not None
+        except Exception:  # noqa: BLE001
+            return False
+    return "%s:%d%d%d%d%d" % (cls, has("name"), has("vartype"), has("ASSIGN"), has("operation"), has("measure"))
+
+
+def patch_listener():
+    """wrap BlackbirdErrorListener.syntaxError: record what it is handed and what it does"""
+    if _PATCHED[0]:
+        return
+    from blackbird.error import BlackbirdErrorListener, BlackbirdSyntaxError
+    orig = BlackbirdErrorListener.syntaxError
+
+    def wrapped(self, recognizer, offendingSymbol, line, column, msg, e):
+        ctx = e.ctx if e else recognizer._ctx
+        anc = []
+        p = getattr(ctx, "parentCtx", None)
+        while p is not None:
+            anc.append(node_of(p))
+            p = getattr(p, "parentCtx", None)
+        txt = offendingSymbol.text
+        flags = [txt in {";", "[", "]", "\\", "$", "@", "&", "%", "~", "`", "?"}, txt == "\n",
+                 "expecting NEWLINE" in msg, msg == "mismatched input '\\n' expecting {INT, '(', '['}",
+                 "expecting {NEWLINE, ')', ']'}" in msg, "expecting {NEWLINE, 'name'}" in msg,
+                 "expecting {NEWLINE, 'version'}" in msg]
+        rec = {"ctx": node_of(ctx), "anc": ";".join(anc), "flags": "".join("1" if f else "0" for f in flags),
+               "line": line, "col": column, "symbol": txt, "msg": msg}
+        try:
+            orig(self, recognizer, offendingSymbol, line, column, msg, e)
+            rec["outcome"] = "returned"
+        except BlackbirdSyntaxError as ex:
+            m = str(ex.args[0]) if ex.args else ""
+            kind = "generic"
+            for k, v in MSG.items():
+                if k in m:
+                    kind = v
+                    break
+            mm = re.match(r"Blackbird SyntaxError \(line (\d+):(\d+)\)", m)
+            rec["outcome"] = "syntax %s %s %s" % (mm.group(1) if mm else "?", mm.group(2) if mm else "?", kind)
+            RECORDS.append(rec)
+            raise
+        except AttributeError:
+            rec["outcome"] = "attribute"
+            RECORDS.append(rec)
+            raise
+        except UnboundLocalError:
+            rec["outcome"] = "unbound"
+            RECORDS.append(rec)
+            raise
+        except Exception as ex:  # noqa: BLE001
+            rec["outcome"] = "other " + type(ex).__name__
+            RECORDS.append(rec)
+            raise
+        RECORDS.append(rec)
+    BlackbirdErrorListener.syntaxError = wrapped
+    _PATCHED[0] = True
+
+
+def listener_corr(ctx):
+    """model of the error listener's decision tree vs every real call recorded in this run"""
+    recs = list(RECORDS)
+    seen = set()
+    uniq = []
+    for r in recs:
+        key = (r["ctx"], r["anc"], r["flags"], r["line"], r["col"], r["outcome"])
+        if key not in seen:
+            seen.add(key)
+            uniq.append(r)
+    outs = core.model_batch([core.cmd("ERRL", r["ctx"], r["anc"], r["flags"], str(r["line"]), str(r["col"])) for r in uniq])
+    ninv = 0
+    for r, o in zip(uniq, outs):
+        parts = o.split(" ")
+        if parts[-1] != "inv":
+            ninv += 1
+            ctx.disagree("ERRL: a context outside CtxInv reached the listener: %s ancestors %s" % (r["ctx"], r["anc"]),
+                         {"kind": "correspondence", "cmd": "ERRL", "record": r})
+            continue
+        model = " ".join(parts[:-1])
+        if model != r["outcome"]:
+            ctx.disagree("ERRL: model %r, listener %r for context %s (%s)" % (model, r["outcome"], r["ctx"], r["msg"][:80]),
+                         {"kind": "correspondence", "cmd": "ERRL", "record": r})
+        else:
+            ctx.traces += 1
+    ctx.extra["error_listener_calls"] = len(recs)
+    ctx.extra["error_listener_distinct_calls"] = len(uniq)
+    ctx.extra["error_listener_contexts"] = sorted(set(r["ctx"].split(":")[0] for r in uniq))
+
+
 def check_text(text, bnf):
     """returns (message|None, info)"""
     toks, eof = core.real_tokens(text)
@@ -112,6 +222,8 @@ def run(ctx):
                 "the first bad token; model parser verdict vs Earley verdict; non-trivial = ungrammatical input "
                 "with at least 5 tokens; distinct by text")
     bnf = g4.load_bnf(core.REPO)
+    patch_listener()
+    del RECORDS[:]
     nscripts = ctx.n(60, 400)
     per = ctx.n(40, 10 ** 6)
     texts = []
@@ -158,3 +270,4 @@ def run(ctx):
                          {"kind": "correspondence", "cmd": "SYNTAX", "text": t})
         else:
             ctx.traces += 1
+    listener_corr(ctx)
